@@ -244,7 +244,14 @@ def random_sources(rng, n, nlines):
                 if name in ("M1", "M2"):
                     src.append(defobj(tag, name, body))
                 else:
-                    src.append(deffn(tag, name, ["x"] if name == "F" else ["x", "y"], body))
+                    params = ["x"] if name == "F" else ["x", "y"]
+                    if rng.random() < 0.2:
+                        # a parameter spelled like a macro: inside the body the word is the parameter
+                        ren = {rng.choice(params): rng.choice(["M1", "M2"])}
+                        params = [ren.get(q, q) for q in params]
+                        body = [Id(ren[l["s"]]) if l["k"] == "id" and l["s"] in ren else l for l in body]
+                        tag += "-param-named-like-macro"
+                    src.append(deffn(tag, name, params, body))
             elif ch < 0.36:
                 src.append({"k": "undef", "tag": "undef", "rich": False, "name": rng.choice(["M1", "M2", "F"])})
             elif ch < 0.48 and len(stack) < 2 and left > len(stack) + 2:
@@ -284,6 +291,11 @@ def probes():
         [selfinc, use],                                                   # genuine cycles: must be refused
         [c1],
         [d_m1, text("use-obj-before-string", False, [Id("M1"), Str("s")])],
+        # a parameter spelled like a defined macro: the body word is the parameter, the macro is untouched elsewhere
+        [d_m1, deffn("def-fn1-param-named-like-macro", "F", ["M1"], [P("["), Id("M1"), P(","), Id("M1"), WS, P("*"), WS, Id("2"), P("]")]),
+         text("call-1", False, call("F", [[Id("8")]]) + [WS, Id("M1")])],
+        [d_m1, defobj("def-obj", "M2", [Id("7")]), deffn("def-fn2-param-named-like-macro", "G", ["M2", "y"], [Id("M2"), P("##"), Id("y"), WS, Id("M1"), WS, Id("M2")]),
+         text("call-2", False, call("G", [[Id("a")], [Id("b")]]) + [WS, Id("M2")])],
         [d_f, text("fn-name-bare-in-arg", False, call("F", [[Id("F")]]))],
         [d_m1, d_f, text("fn-name-bare-in-arg-front", True, call("F", [[Id("F"), WS, Id("M1")]]))],
     ]
